@@ -443,7 +443,7 @@ var _ = fmt.Sprintf
 
 type c11RcCase struct {
 	Call  string `json:"call"`  // connect | disconnect
-	Phase string `json:"phase"` // dialling | connecting | waiting | activating (context ends while the accepting CONNACK is being processed)
+	Phase string `json:"phase"` // dialling | connecting | waiting | activating (context ends while the accepting CONNACK is being processed) | dialling-noctx (the dialler ignores its context) | connect-stalled (the CONNECT write blocks)
 	Cause string `json:"cause"` // cancel | deadline
 }
 
@@ -460,8 +460,12 @@ func c11RcRun(tb rapid.TB, c c11RcCase) {
 	}
 	b := newVBroker(log, true, false, plan)
 	d := &vdialer{b: b}
-	if c.Phase == "dialling" {
+	if c.Phase == "dialling" || c.Phase == "dialling-noctx" {
 		d.holdFrom, d.holdGate = 1, make(chan struct{})
+		d.ignoreCtx = c.Phase == "dialling-noctx"
+	}
+	if c.Phase == "connect-stalled" {
+		d.stallWrites = true // the CONNECT write itself blocks: the peer accepted the connection and reads nothing
 	}
 	cliI, _ := NewReconnectClient(d, WithReconnectWait(base, 2*base))
 	cli := cliI.(*reconnectClient)
@@ -518,9 +522,13 @@ func c11RcRun(tb rapid.TB, c c11RcCase) {
 	reached := vWaitUntil(20*time.Second, func() bool {
 		for _, e := range log.snapshot() {
 			switch c.Phase {
-			case "dialling":
+			case "dialling", "dialling-noctx":
 				if e.Kind == "DIAL" {
 					return true
+				}
+			case "connect-stalled":
+				if e.Kind == "DIAL-OK" {
+					return vGoroutinesWith("(*memConn).Write(", "sync.(*Cond).Wait") >= 1
 				}
 			case "connecting":
 				if e.Kind == "W" && e.Pkt.Type == rtConnect {
@@ -609,7 +617,7 @@ func TestVerifC11_ReconnectGrid(t *testing.T) {
 	vRun(t, "C11", vOpts{CurFile: true, ReplayReps: 3}, func(rt *rapid.T) c11RcCase {
 		return c11RcCase{
 			Call:  rapid.SampledFrom([]string{"connect", "disconnect"}).Draw(rt, "call"),
-			Phase: rapid.SampledFrom([]string{"dialling", "connecting", "waiting", "activating"}).Draw(rt, "phase"),
+			Phase: rapid.SampledFrom([]string{"dialling", "connecting", "waiting", "activating", "dialling-noctx", "connect-stalled"}).Draw(rt, "phase"),
 			Cause: rapid.SampledFrom([]string{"cancel", "deadline"}).Draw(rt, "cause"),
 		}
 	}, c11RcRun)
